@@ -32,6 +32,118 @@ func endsInOpenRawBlock(doc ast.Node) bool {
 	return false
 }
 
+var c09BlockTags = map[string]bool{}
+
+func init() {
+	for _, t := range strings.Fields("address article aside base basefont blockquote body caption center col colgroup dd details dialog dir div dl dt fieldset figcaption figure footer form frame frameset h1 h2 h3 h4 h5 h6 head header hr html iframe legend li link main menu menuitem nav noframes ol optgroup option p param search section summary table tbody td tfoot th thead title tr track ul") {
+		c09BlockTags[t] = true
+	}
+}
+
+// c09TopLevelClosed is an independent reading of the side condition for documents made of top-level blocks only. It
+// returns simple=true when no line of a is indented by 4+ columns, contains a tab, or starts (after ≤3 spaces) with a
+// container or fence character (> - + * digit ` ~), and when every HTML block start it meets is of a kind it can classify
+// from CommonMark's start conditions 1–6; closed then says whether, by the specification's end conditions, no HTML block
+// is still open at the end of a (types 1–5: a line containing the end marker was seen; type 6: a blank line followed).
+// Deciding this from the implementation's own tree alone would hide exactly the defects where a block fails to close.
+func c09TopLevelClosed(a []byte) (simple, closed bool) {
+	t := 0 // open HTML block type
+	ends := map[int][]string{1: {"</pre>", "</script>", "</style>", "</textarea>"}, 2: {"-->"}, 3: {"?>"}, 4: {">"}, 5: {"]]>"}}
+	hasEnd := func(low string, ty int) bool {
+		for _, e := range ends[ty] {
+			if strings.Contains(low, e) {
+				return true
+			}
+		}
+		return false
+	}
+	for _, ln := range strings.Split(strings.TrimRight(string(a), "\n"), "\n") {
+		if strings.ContainsAny(ln, "\t\r") {
+			return false, false
+		}
+		low := strings.ToLower(ln)
+		if t >= 1 && t <= 5 {
+			if hasEnd(low, t) {
+				t = 0
+			}
+			continue
+		}
+		blank := strings.TrimSpace(ln) == ""
+		if t == 6 {
+			if blank {
+				t = 0
+			}
+			continue
+		}
+		if blank {
+			continue
+		}
+		body := strings.TrimLeft(ln, " ")
+		if len(ln)-len(body) > 3 {
+			return false, false
+		}
+		if strings.IndexByte(">-+*0123456789`~", body[0]) >= 0 {
+			return false, false
+		}
+		lb := strings.ToLower(body)
+		if lb[0] != '<' {
+			continue
+		}
+		ty := 0
+		switch {
+		case strings.HasPrefix(lb, "<!--"):
+			ty = 2
+		case strings.HasPrefix(lb, "<?"):
+			ty = 3
+		case strings.HasPrefix(lb, "<![cdata["):
+			ty = 5
+		case len(lb) > 2 && lb[1] == '!' && lb[2] >= 'a' && lb[2] <= 'z':
+			ty = 4
+		default:
+			name := strings.TrimPrefix(lb[1:], "/")
+			i := 0
+			for i < len(name) && (name[i] >= 'a' && name[i] <= 'z' || name[i] >= '0' && name[i] <= '9') {
+				i++
+			}
+			rest := name[i:]
+			name = name[:i]
+			delim := rest == "" || rest[0] == ' ' || rest[0] == '>' || strings.HasPrefix(rest, "/>")
+			switch {
+			case (name == "pre" || name == "script" || name == "style" || name == "textarea") && lb[1] != '/' && (rest == "" || rest[0] == ' ' || rest[0] == '>'):
+				ty = 1
+			case c09BlockTags[name] && delim:
+				ty = 6
+			default:
+				return false, false // a type 7 block, or inline HTML in a paragraph: not classified here
+			}
+		}
+		if ty >= 1 && ty <= 5 && hasEnd(low, ty) {
+			return false, false // opener and end marker on one line: left to the conservative rule
+		}
+		t = ty
+	}
+	return true, t == 0
+}
+
+// c09Open is the side condition used for A: conservative rule on the implementation's tree, overridden by the independent
+// top-level reading where that applies.
+func c09Open(a []byte, doc ast.Node) bool {
+	if simple, closed := c09TopLevelClosed(a); simple {
+		return !closed
+	}
+	return endsInOpenRawBlock(doc)
+}
+
+// withNL returns a terminated by a line ending: A is a sequence of complete lines (the joined document puts a line ending
+// behind A's last line, so R(A) is taken with it too; it matters for raw blocks, whose bytes are copied verbatim).
+func withNL(a []byte, buf *[]byte) []byte {
+	if len(a) > 0 && a[len(a)-1] == '\n' {
+		return a
+	}
+	*buf = append(append((*buf)[:0], a...), '\n')
+	return *buf
+}
+
 var c09Sep = []byte("\n\n# h\n\n")
 var c09Mid = []byte("<h1>h</h1>\n")
 
@@ -41,7 +153,15 @@ type c09B struct {
 }
 
 func c09PairCase(s *core.Sub, cv *core.Conv, a, ra, b, rb []byte, scratch *[]byte) {
-	doc := append(append(append((*scratch)[:0], a...), c09Sep...), b...)
+	// A and B are sequences of complete lines: A, a blank line, the heading line, a blank line, B
+	doc := append((*scratch)[:0], a...)
+	if len(a) == 0 || a[len(a)-1] != '\n' {
+		doc = append(doc, '\n')
+	}
+	doc = append(append(doc, c09Sep[1:]...), b...)
+	if len(b) == 0 || b[len(b)-1] != '\n' {
+		doc = append(doc, '\n')
+	}
 	*scratch = doc
 	got, ok := mustConvert(s, cv, doc)
 	if !ok {
@@ -85,8 +205,9 @@ func runC09(r *core.Run) {
 			{
 				cv := core.NewConv(cfg)
 				core.ForEachWord(j.toks, m, 1, func(int) func([]byte) {
+					var nlb []byte
 					return func(w []byte) {
-						out, _, _ := cv.Convert(w)
+						out, _, _ := cv.Convert(withNL(w, &nlb))
 						bs = append(bs, [2][]byte{append([]byte{}, w...), append([]byte{}, out...)})
 					}
 				}, nil)
@@ -98,10 +219,11 @@ func runC09(r *core.Run) {
 					var scratch, ra []byte
 					return func(a []byte) uint64 {
 						doc, pan := cv.Parse(a)
-						if pan != nil || doc == nil || endsInOpenRawBlock(doc) {
+						if pan != nil || doc == nil || c09Open(a, doc) {
 							return 0
 						}
-						out, ok := mustConvert(s, cv, a)
+						var nlb []byte
+						out, ok := mustConvert(s, cv, withNL(a, &nlb))
 						if !ok {
 							return 0
 						}
@@ -132,7 +254,7 @@ func runC09(r *core.Run) {
 		{
 			cv := core.NewConv(cfg)
 			for _, c := range cons {
-				out, _, _ := cv.Convert([]byte(c))
+				out, _, _ := cv.Convert([]byte(c + "\n"))
 				bs = append(bs, [2][]byte{[]byte(c), append([]byte{}, out...)})
 			}
 		}
@@ -151,8 +273,9 @@ func runC09(r *core.Run) {
 					if pan != nil || doc == nil {
 						return 0
 					}
-					wOpen := endsInOpenRawBlock(doc)
-					out, ok := mustConvert(s, cv, wd)
+					wOpen := c09Open(wd, doc)
+					var nlb []byte
+					out, ok := mustConvert(s, cv, withNL(wd, &nlb))
 					if !ok {
 						return 0
 					}
@@ -164,7 +287,7 @@ func runC09(r *core.Run) {
 						}
 						if openK[i] == 0 {
 							openK[i] = 1
-							if d, _ := cv.Parse(b[0]); d != nil && endsInOpenRawBlock(d) {
+							if d, _ := cv.Parse(b[0]); d != nil && c09Open(b[0], d) {
 								openK[i] = 2
 							}
 						}
@@ -198,20 +321,26 @@ func runC09(r *core.Run) {
 					}
 					src := []byte(strings.TrimRight(md, "\n"))
 					doc, pan := cv.Parse(src)
-					out, err, pan2 := cv.Convert(src)
+					var nlb []byte
+					out, err, pan2 := cv.Convert(withNL(src, &nlb))
 					if pan != nil || pan2 != nil || err != nil || doc == nil {
 						return
 					}
-					items = append(items, item{src, append([]byte{}, out...), endsInOpenRawBlock(doc)})
+					items = append(items, item{src, append([]byte{}, out...), c09Open(src, doc)})
 				}
 				for _, e := range Seeds(r) {
 					add(e.Markdown)
+					if strings.Contains(e.Markdown, "<") { // tag names and HTML block conditions are case-insensitive
+						if up := strings.ToUpper(e.Markdown); up != e.Markdown {
+							add(up)
+						}
+					}
 				}
 				for _, e := range edge {
 					add(e)
 				}
 			}
-			sub := r.Sub("seed-pairs/"+cn, fmt.Sprintf("every ordered pair (A, B) of %d seeds (spec examples, sources of the repository's test-case files, %d edge constructs such as empty and marker-only list items; seeds containing '[', a tab or a carriage return are left out, A skipped when it ends in an open code/HTML block): R(A ⏎⏎ '# h' ⏎⏎ B) == R(A) + heading + R(B) under %s", len(items), len(edge), cn))
+			sub := r.Sub("seed-pairs/"+cn, fmt.Sprintf("every ordered pair (A, B) of %d seeds (spec examples, sources of the repository's test-case files, %d edge constructs such as empty and marker-only list items, and the upper-cased form of every seed containing '<'; seeds containing '[', a tab or a carriage return are left out, A skipped when it ends in an open code/HTML block): R(A ⏎⏎ '# h' ⏎⏎ B) == R(A) + heading + R(B) under %s", len(items), len(edge), cn))
 			sub.Bound = fmt.Sprintf("%d × %d pairs", len(items), len(items))
 			complete := core.ForEachIndex(len(items), core.Workers(), func(w int) func(int) {
 				cv := core.NewConv(cfg)
@@ -248,7 +377,7 @@ func runC09(r *core.Run) {
 			{
 				cv := core.NewConv(cfg)
 				for _, c := range bsrc {
-					out, _, _ := cv.Convert([]byte(c))
+					out, _, _ := cv.Convert([]byte(c + "\n"))
 					bs = append(bs, [2][]byte{[]byte(c), append([]byte{}, out...)})
 				}
 			}
@@ -274,7 +403,8 @@ func runC09(r *core.Run) {
 						if pan != nil || doc == nil || endsInOpenRawBlock(doc) {
 							continue
 						}
-						out, ok := mustConvert(sub, cv, at)
+						var nlb []byte
+						out, ok := mustConvert(sub, cv, withNL(at, &nlb))
 						if !ok {
 							continue
 						}
